@@ -103,7 +103,8 @@ pub fn build(members: Option<&[(String, Ty)]>, variant: &str, family: &str, seed
     } else {
         None
     };
-    Case { doc: J::Obj(top).render(), members: members.map(|m| m.to_vec()), model, variant: variant.into(), family: family.into() }
+    let style = u.u64();
+    Case { doc: J::Obj(top).render_styled(style), members: members.map(|m| m.to_vec()), model, variant: variant.into(), family: family.into() }
 }
 
 fn judge(c: &Case, cls: &mut Classifier) -> Verdict {
